@@ -253,21 +253,86 @@ def _substitute(expr: ast.AST, mapping: Dict[str, ast.AST]) -> ast.AST:
     return ast.fix_missing_locations(Sub().visit(clone(expr)))
 
 
+FAMILIES = {
+    "candidate": (("candidate_cluster_number", "candidate_cluster_numbers"), ("get_candidate_cluster_number", "region.candidate_clusters")),
+    "protocluster": (("protoclusters", "protocluster_number"), ("protoclusters_by_original_number",)),
+    "subregion": (("subregion_number", "subregion_numbers"), ("get_subregion_number", "region.subregions")),
+}
+
+
+def _rank_table(func: ast.AST, expr: ast.AST) -> Optional[ast.AST]:
+    """ the collection X when expr builds {number: rank} for the ranks 1..n of the numbers in X:
+        `{n: r for r, n in enumerate(sorted(X), 1)}` directly or through a nested one-parameter function returning it """
+    def direct(node: ast.AST, param: Optional[str]) -> Optional[ast.AST]:
+        if not (isinstance(node, ast.DictComp) and len(node.generators) == 1 and not node.generators[0].ifs):
+            return None
+        gen = node.generators[0]
+        if not (isinstance(gen.target, ast.Tuple) and len(gen.target.elts) == 2 and isinstance(gen.iter, ast.Call)
+                and call_name(gen.iter) == "enumerate" and gen.iter.args):
+            return None
+        rank, number = (txt(e) for e in gen.target.elts)
+        start = gen.iter.args[1] if len(gen.iter.args) > 1 else kwarg(gen.iter, "start")
+        if txt(node.key) != number or txt(node.value) != rank or start is None or txt(start) != "1":
+            return None
+        source = gen.iter.args[0]
+        if not (isinstance(source, ast.Call) and call_name(source) == "sorted" and len(source.args) == 1 and not source.keywords):
+            return None
+        return source.args[0]
+    found = direct(expr, None)
+    if found is not None:
+        return found
+    if isinstance(expr, ast.Call) and isinstance(expr.func, ast.Name) and len(expr.args) == 1:
+        for node in ast.walk(func):
+            if isinstance(node, ast.FunctionDef) and node.name == expr.func.id and len(node.args.args) == 1:
+                rets = [r for r in walk_local(node) if isinstance(r, ast.Return) and r.value is not None]
+                if len(rets) == 1:
+                    inner = direct(rets[0].value, node.args.args[0].arg)
+                    if inner is not None and txt(inner) == node.args.args[0].arg:
+                        return expr.args[0]
+    return None
+
+
 def r12_3(ctx: Ctx) -> None:
     func = ctx.fn(HELP, "_adjust_features")
     firsts = {"candidate_cluster_number": "first_candidate_cluster", "candidate_cluster_numbers": "first_candidate_cluster",
               "protoclusters": "first_cluster", "protocluster_number": "first_cluster",
               "subregion_number": "first_subregion", "subregion_numbers": "first_subregion"}
+    family_of = {key: fam for fam, (keys, _) in FAMILIES.items() for key in keys}
     seen = set()
     cfg = CFG(func)
+    # rank tables: locals bound to a {number: rank} mapping
+    tables: Dict[str, ast.AST] = {}
+    for node in walk_local(func):
+        if isinstance(node, ast.Assign) and len(node.targets) == 1 and isinstance(node.targets[0], ast.Name):
+            source = _rank_table(func, node.value)
+            if source is not None:
+                tables[node.targets[0].id] = source
 
     def number_atom(n: ast.AST) -> Optional[str]:
         if isinstance(n, ast.Call) and call_name(n) == "int":
             return "N"
         return None
 
-    for key, value, site in _resolved_stores(ctx, func, cfg, keep=set(firsts.values())):
+    offsets = 0
+    for key, value, site in _resolved_stores(ctx, func, cfg, keep=set(firsts.values()) | set(tables)):
         if key not in firsts:
+            continue
+        seen.add(key)
+        # rank shape: <table>[int(<old number>)]
+        looked_up = [n for n in ast.walk(value) if isinstance(n, ast.Subscript) and isinstance(n.value, ast.Name) and n.value.id in tables
+                     and (any(isinstance(c, ast.Call) and call_name(c) == "int" for c in ast.walk(n.slice))
+                          or isinstance(n.slice, ast.Name))]
+        if looked_up:
+            table = looked_up[0].value.id
+            source = txt(inline_reaching(cfg, site if isinstance(site, ast.stmt) else func.body[0], tables[table])) \
+                if False else txt(tables[table])
+            marks = FAMILIES[family_of[key]][1]
+            ok = all(mark in source for mark in marks) or \
+                (family_of[key] == "protocluster" and "get_protocluster_number" in source)
+            ctx.ob("R12.3", HELP, site, "_adjust_features", f"renumber {key}", ok,
+                   f"`{key}` is renumbered to the rank (1..n) of the old number among the region's numbers of the same family",
+                   detail="" if ok else f"the rank table `{table}` is built from {source[:80]}, not from the {family_of[key]} numbers",
+                   form=f"{key}: {table}[...] over {source[:80]}")
             continue
         found = None
         for node in ast.walk(value):
@@ -283,12 +348,11 @@ def r12_3(ctx: Ctx) -> None:
                 found = (node, aff)
         if found is None:
             ctx.ob("R12.3", HELP, site, "_adjust_features", f"renumber {key}", False,
-                   f"`{key}` is renumbered as n - (first number of that family in the region) + 1",
+                   f"`{key}` is renumbered from the old number of the same family",
                    detail="the stored value is not derived from the old number", form=f"{key}: {txt(value)[:100]}")
-            seen.add(key)
             continue
         node, aff = found
-        seen.add(key)
+        offsets += 1
         first = [k for k, v in aff.terms.items() if v == -1 and k != "N"]
         ok = aff.const == 1 and first == [firsts[key]] and len(aff.terms) == 2
         ctx.ob("R12.3", HELP, site, "_adjust_features", f"renumber {key}", ok,
@@ -298,23 +362,28 @@ def r12_3(ctx: Ctx) -> None:
            "every numbered cross reference is renumbered", form=f"missing: {sorted(set(firsts) - seen)}")
     # subtracting the first number gives 1..n only if the numbers of a family inside one region are consecutive; the areas of
     # an origin-crossing region are not (the crossing area sorts first, the areas before the origin sort last)
-    by_rank = any(isinstance(c, ast.Call) and call_name(c) == "enumerate" and c.args and call_name(c.args[0]) == "sorted"
-                  for c in calls(func)) or any(last_attr(c) == "index" for c in calls(func))
+    by_rank = offsets == 0 and bool(tables)
     ctx.ob("R12.3", HELP, func, "_adjust_features", "renumbering does not assume consecutive numbers", by_rank,
            "the new number of an area is its rank among the region's areas of that kind (1..n), not its old number less the "
            "smallest one",
            detail="" if by_rank else "circular record of 3000 with protoclusters before, across and after the origin plus one in the "
            "middle: the origin-crossing region holds protoclusters 1, 2 and 4 (3 is the middle one), its file is written with "
            "protocluster_number 1, 2, 4 and protoclusters=['1','2','4'], and loading it raises 'record does not contain all "
-           "expected protoclusters'", form="n - first + 1" if not by_rank else "rank")
-    for fam, getter, coll in (("first_candidate_cluster", "get_candidate_cluster_number", "region.candidate_clusters"),
-                              ("first_cluster", "get_protocluster_number", "protoclusters_by_original_number"),
-                              ("first_subregion", "get_subregion_number", "region.subregions")):
-        vals = [v for v in bound_from(func, fam) if not (isinstance(v, ast.Constant) and v.value == 0)]
-        ok = bool(vals) and all("min(" in txt(v) and getter in txt(v) and coll in txt(v) for v in vals)
-        ctx.ob("R12.3", HELP, func, "_adjust_features", f"{fam}", ok,
-               "the first number of a family is the minimum number among the region's members of that family",
-               form="; ".join(txt(v)[:80] for v in vals))
+           "expected protoclusters'", form="n - first + 1" if not by_rank else f"rank tables: {sorted(tables)}")
+    if offsets:
+        for fam, getter, coll in (("first_candidate_cluster", "get_candidate_cluster_number", "region.candidate_clusters"),
+                                  ("first_cluster", "get_protocluster_number", "protoclusters_by_original_number"),
+                                  ("first_subregion", "get_subregion_number", "region.subregions")):
+            vals = [v for v in bound_from(func, fam) if not (isinstance(v, ast.Constant) and v.value == 0)]
+            ok = bool(vals) and all("min(" in txt(v) and getter in txt(v) and coll in txt(v) for v in vals)
+            ctx.ob("R12.3", HELP, func, "_adjust_features", f"{fam}", ok,
+                   "the first number of a family is the minimum number among the region's members of that family",
+                   form="; ".join(txt(v)[:80] for v in vals))
+    else:
+        for name, source in sorted(tables.items()):
+            ctx.ob("R12.3", HELP, func, "_adjust_features", f"rank table {name}", True,
+                   "a rank table maps each number to its position, from 1, among the sorted numbers of one family",
+                   form=f"{name} = ranks of {txt(source)[:80]}")
     # location adjusters: all shift by -region.start with the record length as wrap point
     sites = []
     manual_total = 0
@@ -454,7 +523,7 @@ def run(ctx: Ctx) -> None:
     r12_6(ctx)
     ctx.rule("R12.1", "writer/adjuster agreement on run-specific cross-reference qualifiers", floor=14)
     ctx.rule("R12.2", "snapshot/restore of locations; no aliasing of parent features", floor=4)
-    ctx.rule("R12.3", "renumbering n - first + 1 per family; wrapping location shifts", floor=12)
+    ctx.rule("R12.3", "renumbering by rank within each family; wrapping location shifts", floor=12)
     r12_1(ctx)
     r12_2(ctx)
     r12_3(ctx)
